@@ -125,6 +125,10 @@ def handler(c):
         before = ask3()
         dh3.data_sources = [build(doubled, c['adjust'])]
         res['answers_resourced'] = [before, ask3()]
+        # two vendors quoting the same assets differently, the files as written listed FIRST: bid, ask, pair and mid are all the
+        # first vendor's wherever it has a price
+        dh3.data_sources = [build(c['assets'], c['adjust']), build(doubled, c['adjust'])]
+        res['answers_first_vendor'] = ask3()
     if c.get('split_day') is not None:
         # a vendor with recent bars only (from split_day on) is listed before the one with the full history: whatever the
         # order of the questions, the handler's answers are those of the full history
